@@ -584,6 +584,11 @@ func (w *twkbWriter) writePointArray(numPoints int, coords []float64) {
 }
 
 func (w *twkbWriter) writeAdditionalHeaders() {
+	if w.isEmpty {
+		// An empty geometry only has the "is empty" bit set in its metadata
+		// header, which announces neither a size nor a bbox.
+		return
+	}
 	// These are written in this order so that the size of the
 	// bbox is included in the size computation.
 	if w.hasBBox {
